@@ -19,6 +19,7 @@ mod pdus;
 mod csspgate;
 mod nla;
 mod secrets;
+mod flow;
 
 use std::io::{self, BufRead, Write};
 
@@ -59,6 +60,9 @@ fn dispatch(op: &str, args: &[&str]) -> String {
         "unwrap" => nla::op_unwrap(args),
         "csspnla" => nla::op_cssp(args),
         "sec17" => secrets::op_sec17(args),
+        "flow" => flow::op_flow(args),
+        "refsrv" => flow::op_refsrv(args),
+        "rw" => codec18::op_rw(args),
         _ => format!("unknown-op:{}", op),
     }
 }
